@@ -26,7 +26,12 @@ def models(tier):
     for fam, name, m in flatgen.all_models('quick', fams): out.append((fam, name, m))
     sh = list(flatgen.all_models('quick', ['sharing'])); out += sh[::9]
     d = list(flatgen.all_models('quick', ['shapes'])); out += d[::40 if tier == 'quick' else 8]
-    return out[::3] if tier == 'quick' else out
+    out = out[::3] if tier == 'quick' else out
+    # constraint kinds that only arise from suffixes / special terms: SOS sets, complementarity, PL terms, cones, defined variables
+    for fam, k in (('sos', 5), ('compl', 7), ('pl', 23), ('cones', 13), ('dvars', 4)):
+        extra = list(flatgen.all_models('quick', [fam]))
+        out += extra[::k if tier == 'quick' else max(1, k // 3)]
+    return out
 
 
 def name_sets(m):
@@ -179,7 +184,7 @@ def main(tier, seed):
     chk.set('evaluations', n); chk.set('runs_named', named); chk.set('runs_without_dump', crashed)
     chk.cov['_classes'] = classes
     vcheck.finalize_classes(chk)
-    chk.set('rule', 'driver runs (real RunBackendApp path) over models (linear mixes, canonicalisation, unary-encoding, plus a fixed sub-list of the sharing and shape '
+    chk.set('rule', 'driver runs (real RunBackendApp path) over models (linear mixes, canonicalisation, unary-encoding, plus fixed sub-lists of the sharing, shape, SOS, complementarity, PL, cone and defined-variable '
             'families: every k-th model of the deterministic generator order; the list is enumerated completely) x acceptance configs %s x cvt:names 0..3 x name files {absent, plain, CRLF, short, col-only, look-alikes of derived '
             'names, bracketed names with blanks}; judged: completeness, fidelity of original names (file or documented generic names), '
             'derived names start with an NL item name, uniqueness among delivered variables and among delivered constraints. '
